@@ -105,7 +105,12 @@ Apply(ev) ==
 
 (* the k-th agent-driven batch executes what the (deterministic) agent chooses after exactly k-1 learn() calls *)
 
-Step == More /\ l' = l + 1 /\ Rest /\ Apply(Ev)
+(* the outcome handed to the agent is the best loss over all batches scored so far (the harness logs every batch's own minimum) *)
+HasMin(e) == e.e \in {"boot", "out"} /\ "bmin" \in DOMAIN e
+BatchMins(k) == {T.ev[i].bmin : i \in {j \in 1..k : HasMin(T.ev[j])}}
+RunningBestOK == (Ev.e = "out" /\ HasMin(Ev)) => \A m \in BatchMins(l) : Ev.best <= m /\ Ev.best \in BatchMins(l)
+
+Step == More /\ l' = l + 1 /\ Rest /\ RunningBestOK /\ Apply(Ev)
 
 (* for other agents (epsilon-greedy): the same agent, seed, plan and losses run under another schedule executed T.ref *)
 TTimingIndependent ==
@@ -123,6 +128,7 @@ Why == IF ~More THEN "end"
               [] Ev.e = "get" /\ (actQ = <<>> \/ Head(actQ) # <<Ev.cid, Ev.a>>) -> "action queue is not FIFO / unexpected action"
               [] Ev.e = "get" -> "scheduler returned a sampler other than the one chosen"
               [] Ev.e = "rcv" -> "outcome queue is not FIFO / unexpected message"
+              [] Ev.e = "out" /\ ~RunningBestOK -> "RunningBest: the outcome sent to the agent is not the best loss over the batches scored so far"
               [] Ev.e = "idle" -> "census after end_session differs from the queues rebuilt from the events"
               [] OTHER -> "event not explained"
 
